@@ -229,6 +229,7 @@ class Queue(Greenlet):
         self.queued = []
         self.active_ids = set()
         self.queued_ids = set()
+        self.fetching_ids = set()
         self.queued_lock = Semaphore(1)
         self.queue_policies = []
         self._use_pool('store_pool', store_pool)
@@ -302,7 +303,8 @@ class Queue(Greenlet):
 
     def _add_queued(self, entry):
         timestamp, id = entry
-        if id not in self.queued_ids | self.active_ids:
+        known_ids = self.queued_ids | self.fetching_ids | self.active_ids
+        if id not in known_ids:
             bisect.insort(self.queued, entry)
             self.queued_ids.add(id)
             self.wake.set()
@@ -325,7 +327,11 @@ class Queue(Greenlet):
         results = list(zip(envelopes, ids))
         for env, id in results:
             if not isinstance(id, BaseException):
-                if self.relay and id not in self.active_ids:
+                # If the storage has already announced the id it is on the
+                # timetable (or being fetched from it): leave it there.
+                known_ids = (self.queued_ids | self.fetching_ids |
+                             self.active_ids)
+                if self.relay and id not in known_ids:
                     self.active_ids.add(id)
                     self._pool_spawn('relay', self._attempt, id, env, 0)
             elif not isinstance(id, QueueError):
@@ -337,9 +343,16 @@ class Queue(Greenlet):
             self._add_queued(entry)
 
     def _remove(self, id):
-        self._pool_spawn('store', self.store.remove, id)
+        self._pool_spawn('store', self._remove_stored, id)
         self.queued_ids.discard(id)
-        self.active_ids.discard(id)
+
+    def _remove_stored(self, id):
+        # The id stays in flight until it is gone from storage, so that a
+        # late announcement or start-up listing cannot fetch it once more.
+        try:
+            self.store.remove(id)
+        finally:
+            self.active_ids.discard(id)
 
     def _bounce(self, envelope, reply):
         bounce = self.bounce_factory(envelope, reply)
@@ -446,21 +459,26 @@ class Queue(Greenlet):
 
     def _dequeue(self, id):
         try:
-            envelope, attempts = self.store.get(id)
-        except KeyError:
-            return
-        if id not in self.active_ids:
-            self.active_ids.add(id)
-            pool = getattr(self, 'relay_pool', None)
-            if pool is not None and pool.full():
-                # Wait for the relay pool from a separate greenlet: waiting
-                # here would hold a store pool slot that the running
-                # attempts need before they can finish.
-                gevent.spawn(self._pool_spawn, 'relay', self._attempt,
-                             id, envelope, attempts)
-            else:
-                self._pool_spawn('relay', self._attempt,
-                                 id, envelope, attempts)
+            try:
+                envelope, attempts = self.store.get(id)
+            except KeyError:
+                return
+            if id not in self.active_ids:
+                self.active_ids.add(id)
+                self._start_attempt(id, envelope, attempts)
+        finally:
+            self.fetching_ids.discard(id)
+
+    def _start_attempt(self, id, envelope, attempts):
+        pool = getattr(self, 'relay_pool', None)
+        if pool is not None and pool.full():
+            # Wait for the relay pool from a separate greenlet: waiting
+            # here would hold a store pool slot that the running
+            # attempts need before they can finish.
+            gevent.spawn(self._pool_spawn, 'relay', self._attempt,
+                         id, envelope, attempts)
+        else:
+            self._pool_spawn('relay', self._attempt, id, envelope, attempts)
 
     def _check_ready(self, now):
         last_i = 0
@@ -477,6 +495,7 @@ class Queue(Greenlet):
             ready = self.queued[:last_i]
             self.queued = self.queued[last_i:]
             self.queued_ids = set([id for _, id in self.queued])
+            self.fetching_ids.update([id for _, id in ready])
             for timestamp, entry_id in ready:
                 self._pool_spawn('store', self._dequeue, entry_id)
 
@@ -519,6 +538,7 @@ class Queue(Greenlet):
             waiting = self.queued
             self.queued = []
             self.queued_ids = set()
+            self.fetching_ids.update([id for _, id in waiting])
             for entry in waiting:
                 self._pool_spawn('store', self._dequeue, entry[1])
         finally:
